@@ -22,6 +22,48 @@ def _ops_entry(pid, theorems, focus):
     )
 
 PROPS = {
+    "C07": dict(
+        driver="C07",
+        model="Model/FdTable.v",
+        run_fn="run_fdcase",
+        theorems=["C07_fd_word_roundtrip", "C07_close_encoding", "C07_descriptor_closed_exactly_once",
+                  "C07_delivered_to_abandoned_op_refuted", "C07_delivered_to_finished_unpolled_op_refuted",
+                  "C07_close_future_never_started_refuted", "C07_all_closed_at_rest_refuted"],
+        rule="one splitmix64 stream per case (VERIF_SEED, index) on the simulated kernel: ring with 1, 2 or 4 submission "
+             "slots, random 32-bit start counters, no direct descriptor table or one of 2, 4 or 8 slots; 6..40 events "
+             "from one of four weight profiles (balanced / many drops between ring polls / futures abandoned / "
+             "explicit closes) drawn from {AsyncFd::from_raw_fd, stdin/stdout/stderr wrapper, new creator future: "
+             "open, socket, pipe (regular or .kind(Direct)), accept and multishot_accept on any live descriptor, "
+             "to_direct_descriptor on a regular one, to_file_descriptor on a direct one; poll of a creator; drop of a "
+             "creator in any state; kernel completion of an in-flight creator with the lowest free number of the table "
+             "the submission asks for (so numbers are reused after a close; multishot with or without F_MORE); kernel "
+             "error (EMFILE, ENFILE, EACCES, ECONNRESET, ENXIO without a table); Ring::poll; drop of an AsyncFd (queue "
+             "with room or full); close(); poll / drop of a close future before its first poll, with a full queue, "
+             "after submission, after completion}; every history ends with an orderly wind-down (take arrived "
+             "results, drop futures and descriptors, two ring polls) while the ring exists; non-trivial = at least "
+             "one descriptor issued and one closed; distinct by the Coq case term",
+        assumptions=["descriptor numbers returned by the kernel are non-negative i32 values (guard fresh: fd < 2^31), "
+                     "not open at that moment, never a standard stream, and direct slots lie inside the registered table",
+                     "a future borrows its AsyncFd: an AsyncFd is not dropped or closed while a future made from it is "
+                     "alive (the borrow checker's rule; events breaking it are no-ops in the model and are not generated)",
+                     "IORING_OP_CLOSE executes when the kernel consumes it and an ASYNC_CANCEL never wins against a "
+                     "creator or a close (the request stays in flight; a cancelled creator would return no descriptor)",
+                     "kernel errors are final and are not EINTR / ECANCELED (restart: C09) or EINVAL (pipe falls back "
+                     "to pipe2, to_direct/to_file report Unsupported)",
+                     "the completion queue (256 entries) never overflows; API calls are atomic with respect to "
+                     "completion processing",
+                     "scope: while the Ring exists (what is dropped after its Ring is H13 / C12)",
+                     "known findings H12 and H19 are excluded by name (delivered_to_abandoned_op, "
+                     "close_future_never_started) with witnesses"],
+        trusted=["simulated kernel harness/src/simk.rs (consumes the queue in order, routes close(2) on issued numbers "
+                 "through hook A, records REGISTER_FILES_UPDATE)",
+                 "a10 verif hook A (src/verif.rs): enter, register, close",
+                 "the io_uring ABI reading of CLOSE (file_index = 0: regular sqe.fd, else slot file_index-1; both set: "
+                 "EINVAL), stated twice independently: kernel_close_target in coq/Model/FdTable.v and "
+                 "oracle_close_sqe in harness/src/props/c07.rs",
+                 "the Debug rendering of AsyncFd for the number of a direct descriptor (cross-checked against as_fd() "
+                 "for regular ones and against the close it later produces)"],
+    ),
     "C08": dict(
         driver="C08",
         model="Model/BufPool.v",
